@@ -26,8 +26,8 @@ func register(r *Rule) {
 
 type options struct {
 	prop, tier, repo, verif, only, replay string
-	noFixture, list, dump                  bool
-	expect                                 string
+	noFixture, list, dump                 bool
+	expect                                string
 }
 
 func main() {
